@@ -380,14 +380,22 @@ def assign_names(lib):
             local.append({"f": f, "nparams": len(f["params"]),
                           "explicit": (das[len(nd)] if das and len(nd) < len(das) else None) if nd else fsfx})
             variants.extend(local)
-        overloaded = len(variants) > 1
-        for seq, v in enumerate(variants):
+        # function templates do not take part in the overload numbering: their instantiations are told apart by
+        # the template suffix (docs/reference.rst template_suffix); constructors are numbered among themselves
+        numbered = [v for v in variants if not v["f"].get("template")]
+        overloaded = len(numbered) > 1
+        seq = 0
+        for v in variants:
+            if v["f"].get("template"):
+                v["suffix"] = v["explicit"] or ""
+                continue
             if v["explicit"] is not None:
                 v["suffix"] = v["explicit"] or ""
             elif overloaded:
                 v["suffix"] = "_%d" % seq
             else:
                 v["suffix"] = ""
+            seq += 1
         for f in fs:
             f["variants"] = []
         for v in variants:
